@@ -215,3 +215,32 @@ package onnx
 //@              ite(len(tp.Int32Data) > 0,
 //@                  len(tp.Int32Data) == blen(result) && (forall k :: 0 <= k && k < blen(result) ==> (telem(result, "bool", k) <==> tp.Int32Data[k] == 1)),
 //@                  len(tp.RawData) == blen(result) && (forall k :: 0 <= k && k < blen(result) ==> (telem(result, "bool", k) <==> tp.RawData[k] > 0)))
+
+// ---------------------------------------------------------------------------------------
+// Graph signature (C13)
+
+//@ spec vtensor(p *ValueInfoProto) *TypeProto_Tensor = ite(p != nil && p.Type != nil && typeof(p.Type.Value) == tagof("*onnx.TypeProto_TensorType"),
+//@        unbox(p.Type.Value, "*onnx.TypeProto_TensorType").TensorType, nil)
+//@ spec hasshape(p *ValueInfoProto) bool = vtensor(p) != nil && vtensor(p).Shape != nil && vtensor(p).Shape.Dim != nil
+//@ spec vname(p *ValueInfoProto) string = ite(p != nil, p.Name, "")
+//@ spec vdims(p *ValueInfoProto) []*TensorShapeProto_Dimension = vtensor(p).Shape.Dim
+//@ spec dimv(d *TensorShapeProto_Dimension) int = ite(d != nil && typeof(d.Value) == tagof("*onnx.TensorShapeProto_Dimension_DimValue"),
+//@        unbox(d.Value, "*onnx.TensorShapeProto_Dimension_DimValue").DimValue, 0)
+//@ spec shape_is(s Shape, p *ValueInfoProto) bool = len(s) == len(vdims(p)) &&
+//@        (forall d :: 0 <= d && d < len(s) ==> s[d].Size == dimv(vdims(p)[d]) && (s[d].IsDynamic <==> dimv(vdims(p)[d]) == 0))
+//@ spec lastnamed(protos []*ValueInfoProto, i int, n int) bool = hasshape(protos[i]) &&
+//@        (forall j :: i < j && j < n ==> !(hasshape(protos[j]) && vname(protos[j]) == vname(protos[i])))
+
+//@ func getShapesFromValueProto
+//@   tags C13
+//@   ensures nonnil: result != nil && fresh(result)
+//@   ensures covers: forall i :: 0 <= i && i < len(protos) && hasshape(protos[i]) ==> vname(protos[i]) in result
+//@   ensures witness: forall name string :: name in result ==>
+//@             (exists i :: 0 <= i && i < len(protos) && lastnamed(protos, i, len(protos)) && vname(protos[i]) == name && shape_is(result[name], protos[i]))
+//@   loop 1 invariant shapes != nil && fresh(shapes)
+//@   loop 1 invariant forall name string :: name in shapes ==> allocated(shapes[name])
+//@   loop 1 invariant forall i :: 0 <= i && i < $i && hasshape(protos[i]) ==> vname(protos[i]) in shapes
+//@   loop 1 invariant forall name string :: name in shapes ==>
+//@             (exists i :: 0 <= i && i < $i && lastnamed(protos, i, $i) && vname(protos[i]) == name && shape_is(shapes[name], protos[i]))
+//@   loop 2 invariant len(shape) == len(dims) && fresh(shape) && base(shape) != 0 && off(shape) == 0
+//@   loop 2 invariant forall d :: 0 <= d && d < $i ==> shape[d].Size == dimv(dims[d]) && (shape[d].IsDynamic <==> dimv(dims[d]) == 0)
